@@ -244,6 +244,13 @@ func (l *Lexer) unreadEqual() {
 	}
 }
 
+// RegexAfterEqual reads a regex whose first character is '=' after the lexer
+// handed out its first two bytes as the token /=
+func (l *Lexer) RegexAfterEqual() (Token, error) {
+	l.unreadEqual()
+	return l.Regex()
+}
+
 // the parser calls this when it finds a '/' in prefix position
 func (l *Lexer) Regex() (Token, error) {
 	for !l.atEnd() && l.peek() != '/' {
